@@ -12,6 +12,17 @@ spec -> code
   map(s) from `from` with every public constructor, makes the real call, and compares
   the real result with the spec's value (representation gap_pos/cum_gap_lengths/
   parent_length/len, then every observation of Describe(to)).
+histories on one object
+  IndelMap.tla separates the receiver g from the returned map `out`; a call leaves g unchanged
+  (ReadOnlyOpsPreserveReceiver), Adopt continues the history on the returned, derived map.  The
+  history phase replays such behaviours on ONE real object: a derived map is obtained by one real
+  call (nucleic_reversed, slice, merge_maps, minus_gaps, +, *, joined_segments, int index) or by a
+  constructor, then a seeded sample of the calls the spec enables on it is made on that same
+  object; after every call the result is compared with the spec and the receiver (and at the end
+  its parent) is re-projected and must still be Describe(g).  The per-record replay also shares
+  its real maps between records and re-projects receiver and operand after every call.
+  An exception or unreadable object coming out of the implementation is a VIOLATION, never a
+  machinery failure.
 code -> spec
   trace_C08 records what Aligned / Alignment (the real call sites of the maps) do to
   gapped sequences much longer than the exhaustive bound and lets TLC validate every
@@ -149,6 +160,14 @@ def _deep_ok_key(m):
     return (tuple(m.gap_pos.tolist()), tuple(m.cum_gap_lengths.tolist()), int(m.parent_length), str(m.gap_pos.dtype), str(m.cum_gap_lengths.dtype), type(m.parent_length).__name__)
 
 
+def _expected(t):
+    """Describe(t) in the shape of the observations (cached)."""
+    c = _G.setdefault("expected", {})
+    if t not in c:
+        c[t] = M.im_expected(_G["desc"][t])
+    return c[t]
+
+
 def _input_sig(ctor, t, build):
     c = _G.setdefault("insig", {})
     k = (ctor, t)
@@ -166,7 +185,9 @@ def indel_one(rec, ctors, fails, stats, samples):
     if act == "Slice" and not (args[0] == 0 or args[1] == len(f)):
         nstyles = 1  # style 1 (omitted bounds) would be the same call
     executed, outcomes = [], {}
-    exp_to = M.im_expected(desc[t]) if t in desc else None
+    exp_to = _expected(t) if t in desc else None
+    exp_from = _expected(f)
+    exp_operand = _expected(operand) if operand is not None else None
     done = {}  # concrete input signature -> constructor that was executed for it
     for ctor in ctors:
         b = bad.get((ctor, f), set())
@@ -193,18 +214,39 @@ def indel_one(rec, ctors, fails, stats, samples):
             try:
                 kind, r = M.im_call(m, act, args, build, style)
             except Exception as ex:
+                kind, r = "exc", None
                 outcomes[(ctor, style)] = [(f"exception={type(ex).__name__}", {"exception": repr(ex), "traceback": traceback.format_exc()[-1200:]})]
+            # no call may change the map it is made on (ReadOnlyOpsPreserveReceiver); the maps are
+            # shared by all records of this worker, so this is a history of calls on one object
+            changed = []
+            for who, obj, key_t, exp in (("receiver", m, f, exp_from), ("operand", build(operand) if operand is not None else None, operand, exp_operand)):
+                if obj is None:
+                    continue
+                df, robs = M.receiver_diff(obj, exp)
+                if df:
+                    changed.append((f"{who}-changed", {"expected": {k: exp[k] for k in df}, "observed": {k: robs.get(k) for k in df}}))
+                    _G["maps"].pop((ctor, key_t), None)  # rebuild it for the following records
+                    _G.get("insig", {}).pop((ctor, key_t), None)
+            if changed:
+                outcomes.setdefault((ctor, style), []).extend(changed)
+                m = build(f)
+                continue
+            if kind == "exc":
                 continue
             if kind == "val":
                 if r != rec["ret"]:
                     outcomes[(ctor, style)] = [("ret", {"expected": rec["ret"], "observed": r})]
                 continue
-            rp = M.im_repr(r)
+            try:
+                rp = M.im_repr(r)
+                dk = _deep_ok_key(r)
+            except Exception as ex:  # the returned object cannot even be read
+                outcomes[(ctor, style)] = [(f"result-unreadable={type(ex).__name__}", {"exception": repr(ex), "traceback": traceback.format_exc()[-1200:]})]
+                continue
             drep = [k for k in M.REPR_FIELDS if rp[k] != exp_to[k]]
             if drep:
                 outcomes[(ctor, style)] = [("repr", {"expected": {k: exp_to[k] for k in M.REPR_FIELDS}, "observed": rp})]
                 continue
-            dk = _deep_ok_key(r)
             seen = _G["deep"]
             if dk in seen:
                 stats["deep_cached"] += 1
@@ -315,6 +357,170 @@ def indel_phase(run: Run, scratch):
     return len(lines)
 
 
+# ------------------------------------------------------- IndelMap: histories
+MAP_ACTS = ("Reversed", "Slice", "Merge", "Minus", "Concat", "Scale", "Joined", "Index")
+ROOT_CTORS = ("gapdict", "parse", "segments")
+
+
+class FreshBuilder:
+    """Builds a NEW real map on every call (objects of one history are never shared with another)."""
+
+    def __init__(self, ctor):
+        self.ctor = ctor
+
+    def desc(self, s):
+        return _G["desc"][tuple(s)]
+
+    def __call__(self, s):
+        t = tuple(s)
+        return M.build_indelmap(list(t), self.ctor, _G["desc"][t])
+
+
+def _line_key(ln, field, nxt):
+    i = ln.index(f'"{field}":') + len(field) + 3
+    return ln[i : ln.index(f',"{nxt}"', i)]
+
+
+def history_one(gkey, fails, stats, samples):
+    """All histories of the spec of the shape
+         root h --Call--> Adopt (receiver = derived map g) --(Call, Drop)*-->
+    for one abstract receiver g: the real derived object is obtained by ONE real call on a fresh map of
+    h, then a seeded sample of the calls the spec enables at g is made on that SAME object; after every
+    call the result is compared with the spec and the receiver is re-projected and must still be
+    Describe(g) (ReadOnlyOpsPreserveReceiver).  Roots (fresh constructor-built maps) are histories too."""
+    lines, desc = _G["lines"], _G["desc"]
+    g = tuple(json.loads(gkey))
+    rnd = random.Random(f"{_G['seed']}:{gkey}")
+    ops = [parse(lines[i]) for i in _G["by_from"].get(gkey, ())]
+    if not ops:
+        return
+    exp_g = _expected(g)
+    cap = _G["hist_cap"]
+    derivations = [("ctor:" + c, None) for c in ROOT_CTORS]
+    for act in MAP_ACTS:
+        idx = _G["by_to"].get(gkey, {}).get(act, ())
+        for i in list(idx)[: 2 if act == "Slice" else 1]:
+            derivations.append((act, parse(lines[i])))
+    for n_d, (kind, drec) in enumerate(derivations):
+        ctor = kind[5:] if drec is None else ROOT_CTORS[(n_d + rnd.randrange(3)) % 3]
+        build = FreshBuilder(ctor)
+        parent = None
+        try:
+            if drec is None:
+                obj = build(g)
+            else:
+                parent = build(tuple(drec["from"]))
+                k, obj = M.im_call(parent, drec["act"], drec["args"], build, 0)
+            df, _ = M.receiver_diff(obj, exp_g)
+        except Exception:
+            df = ["exception"]
+        if df:
+            stats["history_start_not_usable"] += 1  # already reported by the per-record replay
+            continue
+        stats["histories"] += 1
+        steps = rnd.sample(ops, min(cap, len(ops)))
+        done = []
+
+        def report(sig, rec, det):
+            key = f"IndelMap:History:derived-by={kind.split(':')[0]}:after={rec['act']}:{M.im_class(rec['act'], rec['args'], list(g))}:{sig}"
+            fails.add(
+                key,
+                {
+                    "spec": "IndelMap",
+                    "receiver": M.gapped_text(g),
+                    "receiver_bits": list(g),
+                    "receiver_obtained_by": {"constructor": ctor, "from": M.gapped_text(drec["from"]) if drec else None, "act": drec["act"] if drec else kind, "args": drec["args"] if drec else []},
+                    "history_on_that_object": done[-40:],
+                    "failing_call": {"act": rec["act"], "args": rec["args"], "spec_to": M.gapped_text(rec["to"]), "spec_ret": rec["ret"]},
+                    **det,
+                },
+            )
+
+        for rec in steps:
+            stats["history_steps"] += 1
+            act, args = rec["act"], rec["args"]
+            style = rnd.randrange(M.IM_STYLES.get(act, 1))
+            broken = False
+            try:
+                kind_r, r = M.im_call(obj, act, args, build, style)
+                if kind_r == "val":
+                    if r != rec["ret"]:
+                        report("ret", rec, {"expected": rec["ret"], "observed": r})
+                else:
+                    exp_to = _expected(tuple(rec["to"]))
+                    dfr, robs = M.receiver_diff(r, exp_to)
+                    if dfr:
+                        report("result", rec, {"expected": {k: exp_to[k] for k in dfr}, "observed": {k: robs.get(k) for k in dfr}})
+                        broken = True
+            except Exception as ex:
+                report(f"exception={type(ex).__name__}", rec, {"exception": repr(ex), "traceback": traceback.format_exc()[-1200:]})
+                broken = True
+            done.append([act, args])
+            df, robs = M.receiver_diff(obj, exp_g)
+            if df:
+                report("receiver-changed", rec, {"expected": {k: exp_g[k] for k in df}, "observed": {k: robs.get(k) for k in df}})
+                broken = True
+            if broken:
+                break  # this object no longer stands for g; the history ends here
+        else:
+            # the whole history went through: every observation of the receiver is still Describe(g)
+            obs = M.im_observe(obj)
+            df = [k for k in M.diff_fields(obs, exp_g) if k not in _G["bad"].get((ctor, g), ())]
+            if df and steps:
+                report("receiver-changed-at-end", steps[-1], {"expected": {k: exp_g[k] for k in df}, "observed": {k: obs.get(k) for k in df}})
+        if parent is not None:
+            exp_p = _expected(tuple(drec["from"]))
+            df, robs = M.receiver_diff(parent, exp_p)
+            if df:
+                report("parent-of-receiver-changed", {"act": drec["act"], "args": drec["args"], "to": list(g), "ret": 0}, {"parent": M.gapped_text(drec["from"]), "expected": {k: exp_p[k] for k in df}, "observed": {k: robs.get(k) for k in df}})
+        if len(samples) < 1 and drec is not None and len(done) >= 3 and 0 in g and 1 in g:
+            samples.append({"spec": "IndelMap", "history": {"root": M.gapped_text(drec["from"]), "derive": [drec["act"], drec["args"]], "receiver": M.gapped_text(g), "calls_on_receiver": done[:6], "n_calls": len(done)}})
+
+
+def _history_job(job):
+    lo, hi = job
+    fails, stats, samples = Fails(), Counter(), []
+    for gkey in _G["hist_keys"][lo:hi]:
+        history_one(gkey, fails, stats, samples)
+    return fails, stats, samples
+
+
+def history_phase(run: Run):
+    lines = _G["lines"]
+    by_from, by_to = defaultdict(list), defaultdict(lambda: defaultdict(list))
+    for i, ln in enumerate(lines):
+        by_from[_line_key(ln, "from", "act")].append(i)
+        act = _line_key(ln, "act", "args").strip('"')
+        if act in MAP_ACTS:
+            lst = by_to[_line_key(ln, "to", "ret")][act]
+            if len(lst) < 4:  # lines are in seeded random order: these are random derivations
+                lst.append(i)
+    keys = sorted(by_from)
+    random.Random(run.seed).shuffle(keys)
+    _G.update(by_from=by_from, by_to=by_to, hist_keys=keys, seed=run.seed, hist_cap=150 if run.tier == "quick" else 200)
+    total, allfails = Counter(), Fails()
+    for fails, stats, samples in run_pool(_history_job, len(keys), 4):
+        total.update(stats)
+        for k, (n, d) in fails.d.items():
+            for _ in range(n):
+                allfails.add(k, d)
+        for s in samples:
+            run.sample(s, limit=7)
+    allfails.merge_into(run, "history of calls on one real IndelMap leaves the spec (result wrong or receiver changed)")
+    run.cov["traces_validated_against_impl"] += total["history_steps"]
+    run.note(
+        "indelmap_histories",
+        {
+            "receivers": len(keys),
+            "histories_on_one_object": total["histories"],
+            "calls_replayed": total["history_steps"],
+            "max_calls_per_history": _G["hist_cap"],
+            "start_not_usable": total["history_start_not_usable"],
+            "derivations": ["ctor:" + c for c in ROOT_CTORS] + list(MAP_ACTS),
+        },
+    )
+
+
 # =================================================================== FeatureMap
 def fm_execute(mdef, act, args, allowed, fails, stats, samples):
     executed, outcomes = [], {}
@@ -322,9 +528,12 @@ def fm_execute(mdef, act, args, allowed, fails, stats, samples):
     mkey = skey(mdef)
     for ctor in M.FM_CTORS:
         try:
-            if (ctor, mkey) not in cache:  # operations do not mutate their receiver
-                cache[(ctor, mkey)] = M.build_featuremap(mdef, ctor)
-            m = cache[(ctor, mkey)]
+            if (ctor, mkey) not in cache:
+                # one real object per (constructor, map) serves all calls the spec enables on it: a
+                # history of calls on one object, whose denotation is re-projected after every call
+                fm = M.build_featuremap(mdef, ctor)
+                cache[(ctor, mkey)] = (fm, None if fm is None else M.fm_snapshot(fm))
+            m, snap = cache[(ctor, mkey)]
         except Exception as ex:
             executed.append((ctor, 0))
             outcomes[(ctor, 0)] = (f"constructor-exception={type(ex).__name__}", {"exception": repr(ex)})
@@ -333,18 +542,30 @@ def fm_execute(mdef, act, args, allowed, fails, stats, samples):
             continue
         executed.append((ctor, 0))
         stats["executions"] += 1
+        exc = tb = None
         try:
             r = M.fm_call(m, act, args)
-        except ValueError as ex:
+        except Exception as ex:
+            exc, tb = ex, traceback.format_exc()[-1200:]
+        now = M.fm_snapshot(m)
+        if now != snap:  # ReceiverPreserved: m' = m for every call
+            outcomes[(ctor, 0)] = ("receiver-changed", {"receiver_before": snap, "receiver_after": now})
+            cache.pop((ctor, mkey), None)
+            continue
+        if isinstance(exc, ValueError):
             if not any(a["kind"] == "raised" for a in allowed):
-                outcomes[(ctor, 0)] = ("raised=ValueError", {"exception": repr(ex), "traceback": traceback.format_exc()[-1200:]})
+                outcomes[(ctor, 0)] = ("raised=ValueError", {"exception": repr(exc), "traceback": tb})
             else:
                 stats["raised_as_specified" if len(allowed) == 1 else "unsupported_raised"] += 1
             continue
-        except Exception as ex:
-            outcomes[(ctor, 0)] = (f"exception={type(ex).__name__}", {"exception": repr(ex), "traceback": traceback.format_exc()[-1200:]})
+        if exc is not None:
+            outcomes[(ctor, 0)] = (f"exception={type(exc).__name__}", {"exception": repr(exc), "traceback": tb})
             continue
-        val, outside = M.fm_project(r, act)
+        try:
+            val, outside = M.fm_project(r, act)
+        except Exception as ex:
+            outcomes[(ctor, 0)] = (f"result-unreadable={type(ex).__name__}", {"exception": repr(ex), "traceback": traceback.format_exc()[-1200:]})
+            continue
         if outside:
             outcomes[(ctor, 0)] = (outside, {"observed": val, "observed_repr": repr(r)})
             continue
@@ -456,6 +677,7 @@ def check(run: Run):
     with Scratch("C08") as scratch:
         t0 = time.time()
         indel_phase(run, scratch)
+        history_phase(run)
         t1 = time.time()
         for cfg in ["MC_FeatureMap_quick.cfg"] if run.tier == "quick" else ["MC_FeatureMap_thorough.cfg", "MC_FeatureMap_thorough2.cfg"]:
             feature_phase(run, scratch, cfg)
@@ -475,6 +697,7 @@ def check(run: Run):
     run.cov["evaluations"] = run.cov["traces_validated_against_impl"]
     run.assumptions += [
         "a gapped sequence is abstracted to gap/residue per column; residue letters do not influence the maps",
+        "histories on one object: one derivation step (or a constructor) followed by a seeded sample of at most 150 (quick) / 200 (thorough) of the calls enabled on the derived map; longer derivation chains are covered only through the closedness of the string family",
         "IndelMap.get_coordinates(): zero-length segments (p, p) are ignored when comparing with the ungapped segments of the string",
         "slice bounds are within -len..len (beyond-length bounds are outside 'alignment interval'); get_align_index without slice_stop only for indices < parent_length as documented",
         "FeatureMap inputs are valid maps: spans of length >= 1 inside the parent; results are compared position by position (entry sequence), not by how spans are cut",
